@@ -293,7 +293,11 @@ func buildWork(thorough bool) (bins []binItem, negs []ev.Num, forms []spec) {
 	// constant op variable, variable op constant
 	for _, a := range types {
 		for _, x := range ev.Values(a, cvLevel) {
-			for _, k := range ev.Constants(thorough) {
+			// negative literals: the compiler folds -k into one constant, which
+			// must adapt to an unsigned operand losslessly or be rejected (E5)
+			ks := append(ev.Constants(thorough), ev.SI(ev.Int, -1), ev.SI(ev.Int, -3))
+
+			for _, k := range ks {
 				bins = append(bins, binItem{operand{N: x}, operand{N: k, Const: true}}, binItem{operand{N: k, Const: true}, operand{N: x}})
 			}
 		}
